@@ -86,6 +86,16 @@ SCHEMA_NESTED = {
     "db2": {"t": {"a": "varchar", "c": "int"}},
 }
 
+SET_ORDER_QUERIES = [
+    ("SELECT * FROM (SELECT a, b, c FROM t INNER UNION ALL BY NAME SELECT c, b, a FROM u) AS s", "duckdb"),
+    ("SELECT * FROM (SELECT a, b, c FROM t FULL UNION BY NAME SELECT id, c, b FROM u) AS s", "duckdb"),
+    ("SELECT * FROM (SELECT a, b, c FROM t LEFT UNION ALL BY NAME SELECT c, id FROM u) AS s", "duckdb"),
+    ("SELECT * FROM t JOIN u USING (a, b, c, id) JOIN v USING (id, c, a)", ""),
+    ("SELECT * FROM t, u, v WHERE t.a = u.a(+) AND u.b(+) = v.b AND t.c = v.c(+)", "oracle"),
+    ("SELECT t.*, u.*, v.* FROM t NATURAL JOIN u NATURAL JOIN v", ""),
+    ("SELECT * EXCLUDE (a, b) REPLACE (c + 1 AS c) FROM t", "duckdb"),
+]
+
 OPT_QUERIES = [
     "SELECT t.a, u.b, v.c FROM t JOIN u ON t.id = u.id JOIN v ON u.id = v.id WHERE t.a > 1 AND u.b < 2 AND v.c = 3 AND t.x = v.x",
     "SELECT * FROM t, u, v WHERE t.id = u.id AND u.id = v.id AND v.a = t.a AND t.b = 1 AND u.c = 2",
@@ -234,6 +244,11 @@ def build_tasks():
             tasks.append(("optimize", s, d))
             tasks.append(("qualify", s, d))
             tasks.append(("annotate", s, d))
+    # constructs whose optimizer code path computes a collection of names / tables (set operations BY NAME, join marks, USING
+    # chains, star over several sources): the order of the result must not come from a set
+    for s, d in SET_ORDER_QUERIES:
+        tasks.append(("optimize", s, d))
+        tasks.append(("qualify", s, d))
     for i, e in enumerate(bool_expressions()):
         tasks.append(("simplify", e, "plain"))
         if i % 3 == 0:
